@@ -184,6 +184,56 @@ def check_adaptive(ctx, case):
             ctx.check("B.nodal.rule", eq(res, q), S_PW, "dimwise", "reported %s, sum w f(p) over get_points_and_weights() %s" % (res, q))
 
 
+def check_fault(ctx, case):
+    """History with a fault at a particular point: the user's model raises once, at its k-th evaluation, somewhere inside the run (k scanned over the whole run).
+    Either the library lets the exception through -- then the caller continues the SAME instance with continue_adaptive_refinement -- or it returns a value;
+    whatever value is finally reported must be the coefficient-weighted sum over the component grids and the nodal rule of the reached structure
+    (missed seed C05_9: a silent retry of a half-evaluated component grid counted it twice)."""
+    dc = _dc()
+    cfg, comps, st = case["cfg"], case["comps"], case["cfg"]["strategy"]
+    s, eo, f = dc.build(cfg, comps, case.get("ref"))
+    cnt = dc.arm_fault(f, 0)
+    with ctx.guard("B.comp.sum", S_PERFORM, st + "-raises"):
+        dc.run_adaptive(s, eo, case["lmin"], case["lmax"], case["tol"], case["max"], case.get("min", 1))
+    total_calls = cnt["n"]
+    if total_calls < 2:
+        return
+    ks = sorted(set([1, 2, total_calls] + [max(1, (total_calls * j) // case.get("positions", 10)) for j in range(1, case.get("positions", 10))]
+                    + [total_calls - j for j in range(1, 6) if total_calls - j >= 1]))
+    for k in ks:
+        s, eo, f = dc.build(cfg, comps, case.get("ref"))
+        cnt = dc.arm_fault(f, k)
+        r = None
+        surfaced = False
+        try:
+            r = dc.run_adaptive(s, eo, case["lmin"], case["lmax"], case["tol"], case["max"], case.get("min", 1))
+        except dc.ModelFault:
+            surfaced = True
+        except Exception as e:  # noqa
+            ctx.check("B.comp.sum", False, S_PERFORM, st + "-fault-other-exception", "model fault at evaluation %d of %d turned into %s: %s" % (k, total_calls, type(e).__name__, e))
+            continue
+        site = S_PERFORM
+        if surfaced:
+            site = S_CONTINUE
+            with ctx.guard("B.comp.sum", S_CONTINUE, st + "-continue-after-fault-raises"):
+                r = dc.continue_adaptive(s, case["tol"], case["max"], case.get("min", 1))
+            if r is None:
+                continue
+        res = r[3]
+        with ctx.guard("B.comp.sum", site, st + "-oracle-raises"):
+            total = component_sum(dc, s, f, st)
+            ctx.check("B.comp.sum", eq(res, total), site, st + ("-continued-after-model-fault" if surfaced else "-model-fault-not-surfaced"),
+                      "model fault at evaluation %d of %d (%s): reported %s but the sum over the component grids gives %s"
+                      % (k, total_calls, "raised to the caller, run continued" if surfaced else "not raised to the caller", res, total))
+        if st == "dimwise":
+            with ctx.guard("B.nodal.rule", S_PW, "dimwise-raises"):
+                with quiet():
+                    P, W = s.get_points_and_weights()
+                q = dc.quad(f, P, W)
+                ctx.check("B.nodal.rule", eq(res, q), S_PW, "dimwise" + ("-continued-after-model-fault" if surfaced else "-model-fault-not-surfaced"),
+                          "model fault at evaluation %d of %d: reported %s, sum w f(p) over get_points_and_weights() %s" % (k, total_calls, res, q))
+
+
 def check_stability(ctx, case):
     """History clause: run to a first stop with solutions_storage, keep the returned array object, continue to a later stop."""
     dc = _dc()
@@ -383,6 +433,8 @@ def dispatch(ctx, case):
             check_standard_stability(ctx, case)
     elif case["kind"] == "stability":
         check_stability(ctx, case)
+    elif case["kind"] == "fault":
+        check_fault(ctx, case)
     elif case["kind"] == "dimadapt":
         check_dimadapt(ctx, case)
     else:
@@ -410,6 +462,9 @@ def anchor_cases():
             # high-order grid + automatic extend/split decision: the parent-estimation branches of the error estimate run before areas are replaced
             {"kind": "adaptive", "cfg": lag, "comps": [["corner", [3.0, 1.0]]], "lmin": 1, "lmax": 2, "ref": None, "tol": -1.0, "max": 250, "min": 1, "stop_index": 5},
             {"kind": "adaptive", "cfg": dw, "comps": comps, "lmin": 1, "lmax": 2, "ref": None, "tol": -1.0, "max": 60, "min": 1, "stop_index": 4},
+            {"kind": "fault", "cfg": dw, "comps": comps, "lmin": 1, "lmax": 2, "ref": None, "tol": -1.0, "max": 40, "min": 1, "stop_index": 3, "positions": 10},
+            {"kind": "fault", "cfg": dict(dw, opts={"version": 6, "rebalancing": False}), "comps": [["gauss", [30.0, 30.0], [0.3, 0.6]]], "lmin": 1, "lmax": 2, "ref": None, "tol": -1.0,
+             "max": 12, "min": 1, "stop_index": 0, "positions": 8},
             {"kind": "adaptive", "cfg": es, "comps": comps, "lmin": 1, "lmax": 2, "ref": None, "tol": -1.0, "max": 60, "min": 1, "stop_index": 3},
             {"kind": "adaptive", "cfg": es, "comps": comps, "lmin": 1, "lmax": 2, "ref": None, "tol": -1.0, "resume_from": 20, "max": 120, "min": 1, "stop_index": 7}]
 
